@@ -842,3 +842,7 @@ Proof.
   - intros n Hn. vm_compute in Hn. repeat (destruct Hn as [<-|Hn]; [reflexivity|]). destruct Hn.
   - intros i. reflexivity.
 Qed.
+
+Lemma process_independent :
+  checkpoint_code_is_process_independent = true /\ experiment_loop_is_process_independent = true.
+Proof. split; reflexivity. Qed.
